@@ -8,7 +8,7 @@ import json, os, subprocess, sys, shutil, re
 src, sid, prop = sys.argv[1:4]
 expect = sys.argv[4] if len(sys.argv) > 4 else None
 V = "/verif"
-out = subprocess.run([V + "/tools/seedcheck.sh", src], capture_output=True, text=True).stdout
+out = subprocess.run([V + "/tools/seedcheck.sh", src], capture_output=True, text=True, errors="replace").stdout
 print(out)
 m = re.search(r"demo-without-change=(\S+) demo-with-change=(\S+) suite-with-change=(\S+)", out)
 if not m:
